@@ -94,6 +94,13 @@ def r1_span_attached(rep, facts):
                 b = facts.body(it['def'])
                 tail = peel(b['body'].get('expr') or {})
                 ok = tail.get('k') == 'mcall' and tail.get('name') == 'map_err' and any(x.get('k') == 'mcall' and x.get('name') == 'set_raw' for x in walk(tail['args'][0]))
+                if not ok:
+                    # the same written as a match: every `Err` arm attaches the text (`Err(mut e) => { e.set_raw(..); Err(e) }`), and no error leaves through `?`
+                    err_arms = [a for m_ in walk(b['body']) if m_.get('k') == 'match' and 'TryDesugar' not in (m_.get('src') or '') for a in m_.get('arms', [])
+                                if any((x.get('path') or '').endswith('Result::Err') for x in walk(a['pat']))]
+                    tries = [m_ for m_ in walk(b['body']) if m_.get('k') == 'match' and 'TryDesugar' in (m_.get('src') or '')]
+                    ok = bool(err_arms) and not tries and all(any(x.get('k') in ('mcall', 'call') and (x.get('name') == 'set_raw' or last_seg(peel(x.get('f', {})).get('path') or '') == 'set_raw')
+                                                                  for x in walk(a['body'])) for a in err_arms)
                 rep.check(R, f'Deserializer<S>::{it["name"]}|set_raw', ok, '.map_err(|e| { e.inner.set_raw(raw); e })', f'`Deserializer<S>::{it["name"]}` does not attach the source text to errors '
                           f'(they render without line / column)', facts.loc(b))
 
